@@ -263,3 +263,14 @@ Theorem xml_faithful_tokens toks e d s' rest :
   xread xinit toks = (XRNode e d, s', rest) ->
   exists consumed, toks = consumed ++ rest /\ tree_evs d = tok_evs consumed /\ In e (t_kids d).
 Proof. intro H. exact (xread_inv toks xinit [] inv_init e d s' rest H). Qed.
+
+(* Two readers interleaved in any order: each ends in the state it reaches alone on its own
+   tokens (the namespace table is per-reader state). *)
+Theorem readers_independent sched : forall sa sb,
+  fold_left xstep2 sched (sa, sb) =
+  (xfeed sa (map snd (filter (fun ev => fst ev) sched)),
+   xfeed sb (map snd (filter (fun ev => negb (fst ev)) sched))).
+Proof.
+  induction sched as [|[b t] r IH]; intros sa sb; [reflexivity|].
+  simpl fold_left. unfold xstep2 at 2. cbn [fst snd]. destruct b; rewrite IH; reflexivity.
+Qed.
